@@ -434,5 +434,19 @@ def replay(data):
         want = e2e.cid_map(n)[G.classify(n, gens)]
         print("classified as", got, "oracle id", want)
         return 0 if got == want else 1
-    print(inp)
+    if "id" in inp and "n" in inp:             # roundtrip
+        from htstabilizer.stabilizer import Stabilizer
+        LC = {2: lcc.LCClass2, 3: lcc.LCClass3, 4: lcc.LCClass4, 5: lcc.LCClass5, 6: lcc.LCClass6}[inp["n"]]
+        got = lcc.determine_lc_class(Stabilizer(LC(inp["id"]).get_graph())).id()
+        print(f"LCClass{inp['n']}({inp['id']}).get_graph() is classified as {got}")
+        return 0 if got == inp["id"] else 1
+    if "graph_id" in inp and isinstance(inp["graph_id"], int):
+        from htstabilizer.stabilizer import Stabilizer
+        from htstabilizer.graph import Graph
+        n = inp["n"]
+        got = lcc.determine_lc_class(Stabilizer(Graph.decompress(n, inp["graph_id"]))).id()
+        want = e2e.cid_map(n).get(G.orbit_table(n)[0][inp["graph_id"]])
+        print("graph", inp["graph_id"], "classified as", got, "oracle id", want)
+        return 0 if got == want else 1
+    print("no single failing input in this replay file:", inp)
     return 1
